@@ -19,6 +19,7 @@ structure IFib where
   size   : Option Int
   scan   : Option (List (Option Int × Option Int × Option Int))
   scan2  : Option (List (Option Int × Option Int × Option Int))
+  scanb  : List (Nat × List (Option Int × Option Int × Option Int))
   lookup : Option (List (Int × Option Int))
 
 def optInt (j : Json) : Except String (Option Int) :=
@@ -51,6 +52,22 @@ def parseIFib (j : Json) : Except String IFib := do
       pure (some rows)
   let scan ← parseScan "scan"
   let scan2 ← parseScan "scan2"
+  let parseRows (s : Json) : Except String (List (Option Int × Option Int × Option Int)) := do
+    (← asList s).mapM (fun r => do
+      match (← asList r) with
+      | [c, ph, res] =>
+        let c' ← match c.getInt? with
+          | .ok v => pure (some v)
+          | .error _ => if c.isNull then pure none else pure (some (-999))
+        pure (c', (← optInt ph), (← optInt res))
+      | _ => throw "scan row")
+  let scanb ← match fOpt j "scanb" with
+    | none => pure []
+    | some s => do
+      (← asList s).mapM (fun e => do
+        match (← asList e) with
+        | [b, rows] => pure ((← b.getNat?), (← parseRows rows))
+        | _ => throw "scanb entry")
   let lookup ← match fOpt j "lookup" with
     | none => pure none
     | some s => do
@@ -72,7 +89,7 @@ def parseIFib (j : Json) : Except String IFib := do
     idx := ← fOptInt j "idx"
     osf := ← fOptInt j "osf"
     size := ← fOptInt j "size"
-    scan, scan2, lookup }
+    scan, scan2, scanb, lookup }
 
 def parseFmts (s : String) : Except String (List Fmt) :=
   s.toList.mapM (fun c => match c with
@@ -113,9 +130,9 @@ def hasEmptySub : (d : Nat) → T d → Bool
   | d + 2, f => (show List (Int × T (d + 1)) from f).any
       (fun e => (show List (Int × T d) from e.2).isEmpty || hasEmptySub (d + 1) e.2)
 
-def hasExplicitZero : (d : Nat) → T d → Bool
-  | 0, v => decide ((show Int from v) = 0)
-  | d + 1, f => (show List (Int × T d) from f).any (fun e => hasExplicitZero d e.2)
+def hasExplicitDflt (dflt : Int) : (d : Nat) → T d → Bool
+  | 0, v => decide ((show Int from v) = dflt)
+  | d + 1, f => (show List (Int × T d) from f).any (fun e => hasExplicitDflt dflt d e.2)
 
 def handleC20 (j : Json) : Except String Verdict := do
   let d1 ← fNat j "d"
@@ -128,6 +145,10 @@ def handleC20 (j : Json) : Except String Verdict := do
     | some v => do pure (some (← asNats v))
   let aspect ← fStr j "aspect"
   let t ← fTree j "t" (d + 1)
+  let dflt := fIntD j "dflt" 0
+  let hfmt := (fStrD j "hfmt" "").toList
+  -- `hu k`: the tensor's rank with `k` ranks below it has format "U"
+  let hu : Nat → Bool := fun k => hfmt.getD (d - k) 'C' == 'U'
   let pre := wfB (d + 1) t && inShape (d + 1) tsh t && decide (fs.length = d + 1) &&
              decide (tsh.length = d + 1) &&
              (match ish with | none => true | some s => shapeGe s tsh)
@@ -139,8 +160,8 @@ def handleC20 (j : Json) : Except String Verdict := do
   let cs ← asIntss (← field impl "cs")
   let ps ← asIntss (← field impl "ps")
   let ifibs ← (← fArr impl "fibs").mapM (fun r => do (← asList r).mapM parseIFib)
-  let E := encode d fs tsh ish t
-  let cont := content (κ := Int) (0 : Int) (d + 1) t
+  let E := encode hu dflt d fs tsh ish t
+  let cont := content (κ := Int) dflt (d + 1) t
   let baseAgree := decide (root = E.root) && decide (cs = E.cs) && decide (ps = E.ps) &&
     zipAll (fun (k : List EFib × Nat) (is : List IFib) => zipAll (attrsAgree (k.2 == d)) k.1 is)
       E.fibs.zipIdx ifibs
@@ -154,25 +175,31 @@ def handleC20 (j : Json) : Except String Verdict := do
      | some s => ["imposed"] ++ (if s != tsh then ["imposedLarger"] else [])) ++
     (if cont.isEmpty then ["allZero"] else []) ++
     (if hasEmptySub (d + 1) t then ["emptySub"] else []) ++
-    (if hasExplicitZero (d + 1) t then ["explicitZero"] else []) ++
+    (if hasExplicitDflt dflt (d + 1) t then ["explicitDefault"] else []) ++
+    (if dflt != 0 then ["nonzeroDefault"] else []) ++
+    (if hfmt.contains 'U' then ["tensorRankU"] else []) ++
     (if allM.any (fun F => F.n == 0) then ["emptyFiber"] else []) ++
     [s!"depth{d + 1}"] ++
     ((fs.zip fs.tail).map (fun e => s!"pair{e.1.toString}{e.2.toString}")).eraseDups
   match aspect with
   | "decode" =>
-    let spec := decodesTo d fs (declShape tsh ish) root cs ps cont
+    let spec := decodesTo dflt d fs (declShape tsh ish) root cs ps cont
     let modelJ := Json.mkObj [("root", jInts E.root), ("cs", jList (E.cs.map jInts)), ("ps", jList (E.ps.map jInts))]
     pure { agree := baseAgree, spec, model := modelJ, tags := shapeTags,
            why := if spec then "" else "decode: arrays do not decode to the content" }
   | "scan" =>
     let agree := baseAgree && sameCount &&
-      pairs.all (fun e => e.2.scan == some (modelScan e.1) && e.2.scan2 == some (modelScan e.1))
+      pairs.all (fun e => e.2.scan == some (modelScan e.1) && e.2.scan2 == some (modelScan e.1) &&
+        e.2.scanb.all (fun (b, rows) =>
+          rows == (e.1.scanBase b).map (fun r => (r.1, optNatToInt r.2, e.1.resolve r.2))))
     let okRows (F : EFib) (o : Option (List (Option Int × Option Int × Option Int))) : Bool :=
       match o with
       | some rows => decide (rows.map (fun r => (r.1, r.2.2)) = F.elemsSpec)
       | none => false
     -- isolated scan and the scan interleaved with the other fibers of the rank
-    let okOf (e : EFib × IFib) : Bool := okRows e.1 e.2.scan && okRows e.1 e.2.scan2
+    -- … and slices that start at a coordinate b > 0: the elements at coordinates >= b
+    let okOf (e : EFib × IFib) : Bool := okRows e.1 e.2.scan && okRows e.1 e.2.scan2 &&
+      e.2.scanb.all (fun (b, rows) => decide (rows.map (fun r => (r.1, r.2.2)) = e.1.elemsSpecFrom b))
     let bad := pairs.filter (fun e => !okOf e)
     let spec := sameCount && bad.isEmpty
     let isCU (F : EFib) : Bool := F.fmt == .C && F.next == some .U
@@ -199,7 +226,7 @@ def handleC20 (j : Json) : Except String Verdict := do
         | _, _ => pure none   -- a marker row: dangling child / error / non-termination
       | _ => throw "walk row")
     let got : Option Content := rows.mapM id
-    let m := walkM E.fibs 0
+    let m := walkM dflt E.fibs 0
     let spec := got == some cont
     let agree := baseAgree && got == some m
     let nB := (fs.filter (· == .B)).length
